@@ -197,6 +197,8 @@ def run(ctx, rep, tier):
         steplen.backtrack_validated(rep, F, tag, 'C07.R11')
         steplen.nn_ratio_test(rep, F, tag, 'C07.R12')
         rollback_only_on_stall(rep, F, tag)
+        from . import c04 as _c04b
+        c14.membership_definitions(_c04b._Ren(rep, 'C14.R14', 'C07.R14'), F, E, tag)
     # a run limited to max_iter = k is a prefix of a longer run also on a re-used solver object: every solve starts from scratch
     from . import c05, c04
     for cfg in CONFIGS:
